@@ -211,8 +211,12 @@ CHECKS = {
         assumptions=['thunks may log but do not panic', 'sync.Once semantics as in Model/Memo.lean'],
     ),
     'C17': dict(
-        spec=['FpVerif.Spec.C17'],
-        harnesses=[H('statet', 'oracle_statet', 4000, 200000, spec_level=True)],
+        # Spec.C17: the hand-written core (Get/Put/Modify/FlatMap/FoldM/Concat/Recover*); Spec.C01 + C01Inst: the generated
+        # statet_monad.go family as the generic template instantiated at the (lawful) StateT operations
+        spec=['FpVerif.Spec.C17', 'FpVerif.Spec.C01', 'FpVerif.Spec.C01Inst'],
+        harnesses=[H('statet', 'oracle_statet', 4000, 200000, spec_level=True),
+                   # state threading / short-circuit of the generated statet_monad.go family (Ap, Map2, Zip, LiftA/LiftM, Sequence, Traverse ...)
+                   H('monad_statet', 'oracle_monad', 3000, 150000, oracle_args=['statet'], spec_level=True)],
         level='proof',
         modelled='state.go (all StateT methods), statet/statet_op.go (all functions); state_monad.go/state_traverse.go via C01',
         assumptions=['iterators handed to FoldM are viewed as the finite list they yield',
